@@ -35,6 +35,9 @@ type sysWorld struct {
 	cleared  bool // … because the trust set was emptied in mid-history (caches may hold validated answers)
 	asked    map[string]bool // names that were resolved (as question or alias target) while the anchors were live
 	evil     *l3.KeyPair
+	taB      *l3.KeyPair // second configured root anchor (worlds with ta=t)
+	taRevSeen bool       // a refresh has fetched B's self-signed revocation, authenticated by the live anchor A
+	taPub    string
 }
 
 type tamper struct {
@@ -113,7 +116,8 @@ func sysNew(f []string) vlib.Res {
 		"txt.zone.test. 300 IN TXT \"hello\"",
 		"deep.a.b.zone.test. 300 IN A 192.0.2.12",
 		"mx.zone.test. 300 IN MX 10 www.zone.test.",
-		"d.zone.test. 300 IN DNAME other.test.")
+		"d.zone.test. 300 IN DNAME other.test.",
+		"di.zone.test. 300 IN DNAME plain.test.")
 	if spec["zone"] == "s" {
 		switch spec["keys"] {
 		case "pairkz": // KSK and ZSK with one key tag
@@ -163,6 +167,14 @@ func sysNew(f []string) vlib.Res {
 	pl := w.AddZone("plain.test.", l3.ZoneOpts{})
 	s.srv["plain"] = pl.Servers[0]
 	pl.Add("www.plain.test. 300 IN A 192.0.2.40")
+	var extraAnchors []string
+	if spec["ta"] == "t" {
+		// two configured root anchors: A (signs the root) and B (published beside it)
+		s.taB = poolPair(1012, ".", 257)
+		w.Root.Keys = append(w.Root.Keys, s.taB)
+		w.Root.AddRR(s.taB.Key)
+		extraAnchors = append(extraAnchors, s.taB.Key.String())
+	}
 	s.noAnchor = spec["anchors"] == "f"
 	qmin := 0
 	if spec["qmin"] != "" {
@@ -170,6 +182,9 @@ func sysNew(f []string) vlib.Res {
 	}
 	s.p = l3.NewPipe(w, l3.PipeOpts{DNSSEC: true, NoRootKeys: s.noAnchor, Tweak: func(cfg *config.Config) {
 		cfg.QnameMinLevel = qmin // RFC 7816: the minimised questions take the retry / referral routes of resolve()
+		if !s.noAnchor {
+			cfg.RootKeys = append(cfg.RootKeys, extraAnchors...)
+		}
 	}})
 	s.evil = poolPair(1500, "zone.test.", 256)
 	return vlib.Res{Impl: "ok"}
@@ -747,6 +762,19 @@ func (s *sysWorld) apply(t tamper, q dns.Question, m *dns.Msg) *dns.Msg {
 		if t.arg == "soa" {
 			rr, _ = dns.NewRR("other.test. 300 IN SOA ns.evil.example. h.evil.example. 666 1 1 1 1")
 		}
+		if t.arg == "ns-inzone" || t.arg == "ns-inzone-sig" {
+			// an unsigned NS RRset owned INSIDE the zone (the signature check skips every authority NS record)
+			zn := "zone.test."
+			if z := s.zoneOfSigs(m); z != nil {
+				zn = z.Name
+			}
+			rr, _ = dns.NewRR(zn + " 300 IN NS ns.attacker.example.")
+			if t.arg == "ns-inzone-sig" {
+				m.Ns = append(m.Ns, &dns.RRSIG{Hdr: dns.RR_Header{Name: zn, Rrtype: dns.TypeRRSIG, Class: dns.ClassINET, Ttl: 300}, TypeCovered: dns.TypeNS,
+					Algorithm: dns.ECDSAP256SHA256, Labels: uint8(dns.CountLabel(zn)), OrigTtl: 300, Expiration: uint32(now.Add(time.Hour).Unix()),
+					Inception: uint32(now.Add(-time.Hour).Unix()), KeyTag: 4242, SignerName: zn, Signature: base64.StdEncoding.EncodeToString(seedBytes(4244, 64))})
+			}
+		}
 		if t.arg == "txt-root" {
 			rr, _ = dns.NewRR("evil. 300 IN TXT \"injected\"")
 		}
@@ -916,6 +944,75 @@ func sysAdvance(f []string) vlib.Res {
 	}
 	sys.p.Advance(time.Duration(vlib.Atoi(f[2])) * time.Second)
 	return vlib.Res{Impl: "ok"}
+}
+
+// l3 ta publish <a|ab|abr|ar>   what the root publishes as its DNSKEY RRset from now on: anchor A alone, A and B,
+//                               A and B with the REVOKE bit (self-signed by B as RFC 5011 §2.1 demands)
+// l3 ta refresh                 one run of the background trust-anchor worker (Resolver.AutoTA)
+// l3 ta live                    the live trust set, judged: a revocation once observed is final
+func sysTA(f []string) vlib.Res {
+	if sys == nil || sys.taB == nil {
+		return vlib.Res{Impl: "no-ta-world"}
+	}
+	root := sys.w.Root
+	a := root.Keys[0]
+	revB := &l3.KeyPair{Key: dns.Copy(sys.taB.Key).(*dns.DNSKEY), Priv: sys.taB.Priv}
+	revB.Key.Flags |= 128
+	inLive := func(k *dns.DNSKEY) bool {
+		for _, rr := range resolver.VerifRootKeys(sys.p.Resolver) {
+			if d, ok := rr.(*dns.DNSKEY); ok && d.PublicKey == k.PublicKey {
+				return true
+			}
+		}
+		return false
+	}
+	switch f[2] {
+	case "publish":
+		root.Remove(".", dns.TypeDNSKEY)
+		sys.taPub = f[3]
+		switch f[3] {
+		case "a":
+			root.AddRR(a.Key)
+		case "ab":
+			root.AddRR(a.Key, sys.taB.Key)
+		case "abr", "ar":
+			root.AddRR(a.Key, revB.Key)
+		}
+		sys.tampered = true
+		sys.srv["root"].SetBehaviour(l3.Behaviour{Tamper: func(q dns.Question, m *dns.Msg, tcp bool) *dns.Msg {
+			if q.Qtype == dns.TypeDNSKEY && q.Name == "." && (sys.taPub == "abr" || sys.taPub == "ar") {
+				var set []dns.RR
+				for _, rr := range m.Answer {
+					if rr.Header().Rrtype == dns.TypeDNSKEY {
+						set = append(set, rr)
+					}
+				}
+				if len(set) > 0 {
+					m.Answer = append(m.Answer, signWith(revB, ".", set, time.Now().Add(-time.Hour), time.Now().Add(24*time.Hour)))
+				}
+			}
+			return m
+		}})
+		return vlib.Res{Impl: "ok"}
+	case "refresh":
+		hadA := inLive(a.Key)
+		sys.p.Resolver.AutoTA()
+		if hadA && (sys.taPub == "abr" || sys.taPub == "ar") {
+			sys.taRevSeen = true
+		}
+		return vlib.Res{Impl: "ok"}
+	case "live":
+		impl := fmt.Sprintf("a=%s b=%s", vlib.B(inLive(a.Key)), vlib.B(inLive(sys.taB.Key)))
+		or := "ok"
+		if sys.taRevSeen && inLive(sys.taB.Key) {
+			or = fail("l3/ta/revoked-anchor-still-live", "published=%s", sys.taPub)
+		}
+		if !inLive(a.Key) && !sys.noAnchor {
+			or = fail("l3/ta/anchor-that-signs-the-root-dropped", "")
+		}
+		return vlib.Res{Impl: impl, Oracle: or, Tags: "nt"}
+	}
+	return vlib.Res{Impl: "bad-op"}
 }
 
 func sysAnchors(f []string) vlib.Res {
@@ -1230,13 +1327,31 @@ func genL3(r *vlib.R, emit func(string)) int {
 	// unsigned cut without seeing a referral and answers SERVFAIL although nothing is wrong (fail-closed
 	// over-strictness outside this property; see notes/C01.md).
 	zsame := vlib.B(zone != "i" && r.Chance(1, 4))
+	if r.Chance(1, 12) {
+		// RFC 5011 histories of a second configured anchor: present / missing / revoked, in any order, refresh after each
+		e(fmt.Sprintf("l3 new alg=%d zone=s isigned=f zsame=f sub=- same=f keys=std anchors=t qmin=0 ta=t", alg))
+		e("l3 q www.zone.test. A d")
+		steps := 2 + r.Intn(3)
+		for i := 0; i < steps; i++ {
+			e("l3 ta publish " + vlib.Pick(r, []string{"a", "a", "ab", "abr", "abr"}))
+			e("l3 ta refresh")
+			if r.Bool() {
+				e("l3 ta refresh")
+			}
+			e("l3 ta live")
+		}
+		e("l3 q txt.zone.test. TXT d")
+		e("l3 ta live")
+		return n
+	}
 	qmin := vlib.Pick(r, []int{0, 0, 0, 1, 2, 3, 5})
 	e(fmt.Sprintf("l3 new alg=%d zone=%s isigned=%s zsame=%s sub=%s same=%s keys=%s anchors=%s qmin=%d", alg, zone, isigned, zsame, subk, same, keys, anchors, qmin))
 
 	qs := []sysQ{{"www.zone.test.", "A"}, {"alias.zone.test.", "A"}, {"xalias.zone.test.", "A"}, {"ialias.zone.test.", "A"},
 		{"x.w.zone.test.", "TXT"}, {"a.b.w.zone.test.", "TXT"}, {"real.w.zone.test.", "TXT"}, {"real.w.zone.test.", "TXT"}, {"txt.zone.test.", "TXT"}, {"nope.zone.test.", "A"},
 		{"www.zone.test.", "AAAA"}, {"deep.a.b.zone.test.", "A"}, {"mx.zone.test.", "MX"},
-		{"www.d.zone.test.", "A"}, {"victim.d.zone.test.", "A"}, {"www.d.zone.test.", "A"}, {"zone.test.", "DS"}, {"zone.test.", "DNSKEY"}, {"zone.test.", "SOA"}, {"www.other.test.", "A"}, {"www.plain.test.", "A"},
+		{"www.d.zone.test.", "A"}, {"victim.d.zone.test.", "A"}, {"www.d.zone.test.", "A"}, {"nope.d.zone.test.", "A"}, {"www.d.zone.test.", "AAAA"},
+		{"www.di.zone.test.", "A"}, {"nope.di.zone.test.", "A"}, {"www.di.zone.test.", "AAAA"}, {"nope.di.zone.test.", "TXT"}, {"zone.test.", "DS"}, {"zone.test.", "DNSKEY"}, {"zone.test.", "SOA"}, {"www.other.test.", "A"}, {"www.plain.test.", "A"},
 		{"x.w.zone.test.", "A"}, {"test.", "SOA"}, {".", "SOA"}, {"nonexistent-tld.", "A"}}
 	if subk != "-" {
 		qs = append(qs, sysQ{"www.sub.zone.test.", "A"}, sysQ{"alias.sub.zone.test.", "A"}, sysQ{"txt.sub.zone.test.", "TXT"},
@@ -1291,6 +1406,7 @@ func genL3(r *vlib.R, emit func(string)) int {
 		{"wildcard-replay", "-", "data"}, {"wildcard-replay", "foreign", "data"}, {"wildcard-replay", "foreign", "data"}, {"wildcard-replay", "foreign-root", "data"},
 		{"wildcard-replay", "inzone", "data"}, {"wildcard-replay", "foreignsig", "data"}, {"ds-childside", "-", "all"},
 		{"rcode", "1", "data"}, {"rcode", "4", "data"}, {"rcode", "5", "data"}, {"rcode", "9", "data"}, {"rcode", "3", "all"},
+		{"inject-auth", "ns-inzone", "data"}, {"inject-auth", "ns-inzone", "all"}, {"inject-auth", "ns-inzone-sig", "data"},
 		{"inject-auth", "a", "data"}, {"inject-auth", "soa", "data"}, {"inject-auth", "txt-root", "data"}, {"inject-auth", "a", "all"},
 		{"nodata-replay", "ns", "data"}, {"nodata-replay", "txt", "data"}, {"nodata-replay", "nsec", "data"}, {"nodata-replay", "soansec", "data"},
 		{"nodata-replay", "ns", "data"}, {"sigfield", "alg16", "data"}, {"sigfield", "alg12", "all"}, {"sigfield", "alg1", "data"}, {"sigfield", "alg253", "notkey"}, {"sigfield", "tag", "data"},
